@@ -186,9 +186,13 @@ class VariableLocationGate(ComposedGate):
         GP = G @ P
         PTGP = P.T @ GP  # same product as in get_unitary
 
-        dG = self.gate.get_grad(a)
-        dG = np.kron(dG, self.I)
-        dG = P.T @ dG @ P
+        if self.gate.num_params == 0:
+            # constant gates may answer get_grad with `np.array([])`
+            dG = np.zeros((0, self.dim, self.dim), dtype=np.complex128)
+        else:
+            dG = self.gate.get_grad(a)
+            dG = np.kron(dG, self.I)
+            dG = P.T @ dG @ P
 
         perm_array = np.array([perm for perm in self.perms])
         perm_array_T = perm_array.transpose((0, 2, 1))
